@@ -310,7 +310,7 @@ def _finite_or_nan(v):
     if isinstance(v, _T.XR):
         return Or(v.nan, _lib._finite_plain(v.v))
     if is_symbolic(v):
-        return _lib._finite_plain(v)          # v != inf; under the contract option finite_reals every non-NaN value is finite
+        return _lib._finite_plain(v)          # np.isfinite of the library model (v != inf)
     import math
     return not math.isinf(v)
 
